@@ -22,7 +22,7 @@ CHECKS = {
               text='Metamorphic polynomial identity decided for ALL admissible states: explicit+implicit tendency of the same physical atmosphere under two reference-temperature profiles agree (dry, with-time, moist, cloud classes; orography; tracers; even/uneven levels; non-monotone profiles).',
               design='§3 C04'),
   'C05': dict(category='other', technique='symbolic execution of the traced jaxpr on balanced families with symbolic parameters and against independent weak-form reference models + QF_LRA monomial-abstraction queries',
-              text='Analytically balanced families have identically zero total tendency for ALL parameter values in the box: isothermal rest over arbitrary orography (every retained coefficient symbolic, T0 concrete and symbolic), solid-body rotation in gradient-wind balance (U, per-level temperatures, humidity, ln ps), geostrophic shallow-water jets (jet coefficients, 1-2 layers); moist(q=0)=dry for all states; total tendency of the dry primitive equations AND of the layered shallow-water equations equals an independent weak-form evaluation of the continuous equations (mpmath basis tables, numpy Gauss weights, unsplit documented vertical scheme / physical layer coupling) for all alias-free states.',
+              text='Analytically balanced families have identically zero total tendency for ALL parameter values in the box: isothermal rest over arbitrary orography (every retained coefficient symbolic, T0 concrete and symbolic), solid-body rotation in gradient-wind balance (U, per-level temperatures, humidity, ln ps), geostrophic shallow-water jets (jet coefficients, 1-2 layers); moist(q=0)=dry for all states; total tendency of the dry primitive equations AND of the layered shallow-water equations equals an independent weak-form evaluation of the continuous equations (mpmath basis tables, numpy Gauss weights, unsplit documented vertical scheme / physical layer coupling) for all alias-free states. The weak-form reference clause also runs with an integer-valued reference profile passed as int64.',
               design='§3 C05'),
   'C06': dict(category='other', technique='power-series execution of the traced step functions (time step symbolic) + QF_LRA queries on Taylor coefficients; QF_NRA queries on the amplification factor; QF_UFNRA equivalence of the generic drivers with symbolic tableaux and uninterpreted operators; CrossHair for list-length validation',
               text='Order conditions decided for ALL ODE coefficients (cubic scalar and tree-separating non-autonomous problem), reductions to parent explicit/implicit schemes, |R(z)|<=1 on the imaginary axis for all schemes and on the closed half plane where decided, leapfrog theta-method reduction and stability for several alpha, coefficient-length validation; the two generic drivers (imex_runge_kutta, low_storage_runge_kutta_crank_nicolson) equal their textbook definitions for SYMBOLIC coefficients (8 tableau zero patterns, 1-3(5) low-storage stages) and uninterpreted F, G, G^-1.',
@@ -31,7 +31,7 @@ CHECKS = {
               text='Translation validation of RealSphericalHarmonics vs FastSphericalHarmonics under the fixed re-indexing for every Grid operation and each option combination (padding multiple, stacked transforms, einsum order), for ALL inputs in the box; model tendencies compared as polynomial identities.',
               design='§3 C09'),
   'C10': dict(category='other', technique='symbolic execution of the traced jaxpr (polynomial normal forms, matched atoms) + QF_LRA monomial-abstraction queries',
-              text='Equivariance decided as polynomial identities for ALL admissible states: tendency(T x) = T tendency(x), one Euler/leapfrog step, and 2-3 frame shallow-water trajectories built by the library trajectory builder (leapfrog + filters), T = rotation by grid steps (several k) or equatorial mirror (vorticity pseudo-scalar), dry/moist primitive equations and shallow water, both transform classes.',
+              text='Equivariance decided as polynomial identities for ALL admissible states: tendency(T x) = T tendency(x), one Euler/leapfrog step, and 2-3 frame shallow-water trajectories built by the library trajectory builder (leapfrog + filters), T = rotation by grid steps (several k) or equatorial mirror (vorticity pseudo-scalar), dry/moist primitive equations and shallow water, both transform classes. Non-default options: upwind vertical advection (relu atoms matched on both sides) under mirror and rotation, sparse vertical matmul under the mirror.',
               design='§3 C10'),
   'C11': dict(category='other', technique='one inductive step decided symbolically: jaxpr interpretation on arbitrary states / stand-in operators returning fresh symbols + exact (eps=0) and QF_LRA queries; DCE of the clock output',
               text='Each structural invariant is shown inductive from an ARBITRARY invariant-satisfying state: explicit tendencies vanish exactly outside the truncation/top wavenumber with zero vorticity/divergence mean; implicit terms and solve preserve the subspace; every integrator keeps the complement at 0 and advances the clock by dt; every shipped filter with its options returns the (0,0) entries exactly; direct filtered Euler/leapfrog steps; shallow-water mean thickness, also along 2-frame trajectories of the library trajectory builder.',
@@ -46,7 +46,7 @@ CHECKS = {
               text='For ALL positive attenuation/scale/dt/tau: factors depend only on total wavenumber, equal 1 for the mean, lie in (0,1], are non-increasing, compose over half steps and follow the documented top-mode law (orders 1..18, cutoffs, both layouts, padded grids); application to pytrees is an elementwise product on spectral leaves and the identity on others; array strengths (incl. exact-zero / infinite-tau entries) act slice-wise for all six factories; Robert-Asselin identities for all r.',
               design='§3 C15'),
   'C16': dict(category='other', technique='symbolic execution of the traced regridding code with symbolic grid bounds / surface pressure / fields (z3 terms with ite, sin uninterpreted) + QF_LRA / QF_NRA queries with cut-point abstraction; affine normal forms for concrete grid pairs',
-              text='Vertical: overlap lemmas for ALL strictly increasing source/target bounds (<= 6x5 cells), weights in [0,1] with unit row sums, hybrid-to-sigma regridding for ALL surface pressures in [400,1100] and fields (constants, convex combination, thickness-weighted integral over the covered range against an independent specification of the hybrid layers, low-top models). Horizontal: latitude overlap identities for ALL increasing centres (<= 4x3), symbolic longitude centres, concrete grid pairs with ALL fields symbolic (constants, range, area integral), documented NaN rules on enumerated missing patterns.',
+              text='Vertical: overlap lemmas for ALL strictly increasing source/target bounds (<= 6x5 cells), weights in [0,1] with unit row sums, hybrid-to-sigma regridding for ALL surface pressures in [400,1100] and fields (constants, convex combination, thickness-weighted integral over the covered range against an independent specification of the hybrid layers, low-top models). Horizontal: latitude overlap identities for ALL increasing centres (<= 4x3), symbolic longitude centres, concrete grid pairs with ALL fields symbolic (constants, range, area integral), documented NaN rules on enumerated missing patterns. Integer (int64/int32, values in [-8,8]) and boolean fields with SYMBOLIC values regrid exactly like their float64 values (QF_LIRA, float->int conversion as ToInt).',
               design='§3 C16'),
   'C17': dict(category='other', technique='symbolic execution of the traced interpolation routines (scan-based searchsorted, clamped dynamic_slice/gather, masks) to z3 terms with symbolic query point, data (and nodes for n<=3) + QF_LRA atom specialisation + QF_NRA queries',
               text='For ALL query points and data (concrete uneven node sets up to 6 nodes; symbolic nodes for n<=3): value at nodes, agreement with the reference piecewise-linear interpolant, neighbour bounds, exactness on affine data, documented extrapolation (constant / unlimited linear / n cells then missing), equality of the two interp code paths, sigma<->pressure on affine columns for all surface pressures, surface-pressure equation, column-wise wrappers; bilinear/nearest regridding constants and identity.',
@@ -64,7 +64,7 @@ CHECKS = {
               text='For ALL inputs: sharded transforms, longitude derivative, spectral operators, filters, sharded_einsum (gather/scatter strategies, both argument orders), parallel cumulative sums, vertical padding, primitive-equation implicit/explicit operators equal the single-device results after cropping, on meshes with axis sizes 1,2,4,6 (<= 8 devices) and padded layouts; no non-finite constant reaches the IR.',
               design='§3 C07'),
   'C08': dict(category='other', technique='symbolic execution of the jaxprs of jax.jvp / jax.vjp of the real functions (polynomial normal forms with atoms; z3 ite-terms for kinked functions) + exact symbolic differentiation of the primal normal form + QF_LRA monomial-abstraction / QF_NRA queries; definedness hazards settled by QF_NRA witness + replay',
-              text='For ALL admissible states, tangents and cotangents: forward mode equals the exact derivative of the primal (chain rule through exp/log/pow/reciprocal atoms), reverse mode is the adjoint of forward mode, and no undefined operation is reachable in the derivative programs (an operation on the edge of its domain is settled by a solver witness replayed on the real jax.jvp/jax.vjp): transforms and spectral operators, filters, dry and moist primitive-equation explicit/implicit terms and a filtered Euler step, shallow-water steps, Held-Suarez forcing, plain and padded layouts; kinks (vertical interpolation routines, upwind advection) decided in the term domain for every branch: derivative of the documented formula off the kink, central-difference limit at the kink, adjointness everywhere.',
+              text='For ALL admissible states, tangents and cotangents: forward mode equals the exact derivative of the primal (chain rule through exp/log/pow/reciprocal atoms), reverse mode is the adjoint of forward mode, and no undefined operation is reachable in the derivative programs (an operation on the edge of its domain is settled by a solver witness replayed on the real jax.jvp/jax.vjp): transforms and spectral operators, filters, dry and moist primitive-equation explicit/implicit terms and a filtered Euler step, shallow-water steps, Held-Suarez forcing, plain and padded layouts; kinks (vertical interpolation routines, upwind advection) decided in the term domain for every branch: derivative of the documented formula off the kink, central-difference limit at the kink, adjointness everywhere. A comparison on data that switches inside the admissible box in a differentiated program is probed: QF_NRA witnesses on either side of and on the switching surface, real jax.jvp against central differences of the real primal there.',
               design='§3 C08'),
   'C13': dict(category='other', technique='symbolic execution of the traced jaxpr + QF_LRA queries (monomial abstraction for bilinear clauses)',
               text='Bounded symbolic verification of the sigma calculus identities for ALL column data and vertical velocities on each enumerated level set (even, dyadic uneven, seeded random), axis and shape.',
